@@ -34,6 +34,8 @@ func c13Candidates(lvl int) []string {
 			gen.Seq(dotted(gen.Lit("0", "1", "10"), 4, 5)),
 			gen.Seq(small, dotGroup, gen.Lit(".0", ".1", ".a", ".rc2")),
 			gen.AllStrings([]string{"1", "0", ".", "a", "rc", "-"}, 6),
+			gen.Seq(small, dotGroup, dotGroup),
+			gen.Seq(small, dashGroup, gen.Lit(".a", ".1", "-b", ".0.b")),
 		)
 	} else {
 		g = gen.Alt(g, gen.AllStrings([]string{"1", "0", ".", "a", "-"}, 5))
